@@ -148,7 +148,7 @@ func BytesToFloat64(b []byte) float64 {
 func Float64ToOrderedBytes(f float64) []byte {
 	bs := make([]byte, 8)
 	bits := math.Float64bits(f)
-	if f >= 0 {
+	if bits&0x8000000000000000 == 0 {
 		bits ^= 0x8000000000000000
 	} else {
 		bits ^= 0xFFFFFFFFFFFFFFFF
